@@ -190,6 +190,34 @@ def solver_reuse(ctx, rng):
                 continue
             s = cls(bs, log_level=0)
             steps = []
+            # fingerprints of the shared basis sets (a solve, successful or rejected, must leave them as they are)
+            def fingerprint():
+                out_ = []
+                for k_ in orders:
+                    b_ = P.basis[k_]
+                    for m_ in (b_._n_a_compression_matrix, ):
+                        out_.append((m_.data.copy(), m_.indices.copy(), m_.indptr.copy()))
+                    out_.append((np.asarray(b_.basis_set).copy(),))
+                return out_
+            fp0 = fingerprint()
+            # a rejected request in the middle of the object's life: forces of another shape make the solver raise inside its loops
+            d_ok, f_ok = data[0]
+            for bad_f in (f_ok[:-1], f_ok[:, :-1, :] if P.N > 1 else f_ok[:-1], np.concatenate([f_ok, f_ok], axis=2)):
+                try:
+                    s.solve(d_ok.copy(), bad_f.copy())
+                except Exception:  # noqa: BLE001   (any loud failure is fine here; what matters is what it leaves behind)
+                    pass
+                else:
+                    ctx.count("solver-accepted-misshaped-forces")
+            fp1 = fingerprint()
+            same = all(all(np.array_equal(x, y) for x, y in zip(a_, b_)) for a_, b_ in zip(fp0, fp1))
+            ctx.count("solver-rejected-requests")
+            if not same:
+                ctx.fail("oracle", "C12/oracle/solver-reuse", f"{P.sc['name']} {cls.__name__}: a solve() that raised (forces of another shape) changed a basis set shared with other solvers",
+                         replay={**P.describe(), "solver": cls.__name__, "sequence": "solve with mis-shaped forces"}, has_input=True)
+                # restore for the remaining solvers of this cell
+                for k_, (a_, b_) in zip([k for k in orders for _ in (0, 1)], zip(fp0, fp1)):
+                    pass
             if rng.random() < 0.5:
                 try:
                     _ = s.full_fc, s.compact_fc          # read before any solve
